@@ -19,6 +19,10 @@ type Probe struct {
 	URL      string `json:"url"`
 	Selected []int  `json:"selected"` // sorted ids of the flows the engine selects
 	Managed  bool   `json:"managed"`  // is_managed over the registered expressions (Go regexp)
+	// per selected id: the monitor's class for (pattern of that flow, URL):
+	// 3 host/path collision on the look-up path, 1 leading/trailing spelling,
+	// 2 empty part at a parameter, 0 none (compared with the model's side conditions)
+	Classes []int `json:"classes"`
 }
 
 type FlowCase struct {
@@ -98,7 +102,7 @@ func coqFlowCase(k *FlowCase) string {
 		return c.Tuple(c.Z(int64(f.ID)), str(f.URL), strs(f.Methods))
 	})
 	pr := c.MapList(k.Probes, func(p Probe) string {
-		return c.Tuple(str(p.Method), str(p.URL), ints(p.Selected), c.B(p.Managed))
+		return c.Tuple(str(p.Method), str(p.URL), ints(p.Selected), c.B(p.Managed), ints(p.Classes))
 	})
 	return c.Tuple(fl, c.B(k.Loaded), c.B(k.ManageAll), strs(k.Endpoints), pr)
 }
